@@ -123,3 +123,130 @@ MUTANTS = [
     ("api_gate_inverted", "sqlfluff/api/simple.py", "    if not fix_even_unparsable:\n        # If fix_even_unparsable wasn't set", "    if fix_even_unparsable:\n        # If fix_even_unparsable wasn't set"),
     ("count_swapped", "sqlfluff/core/linter/linting_result.py", "        return total_errors, num_filtered_errors", "        return num_filtered_errors, total_errors"),
 ]
+
+
+# ------------------------------------------------------------------ discarding the fixes of files with TMP/PRS errors
+from pyvc.dsl import dict_class, was  # noqa: E402
+from pyvc.ty import TDict  # noqa: E402,F811
+from pyvc import exec as _X  # noqa: E402
+import z3 as _z3  # noqa: E402
+
+VDict = dict_class("ViolationRecord", fixes=TOpt(TList(SINK)), warning=TOpt(BOOL))
+Record = dict_class("LintingRecord", filepath=Text, violations=TList(VDict))
+SQLBaseErrorF = ref_class("sqlfluff.core.errors:SQLBaseError", fixes=TList(SINK))
+LintedDirD = ref_class("sqlfluff.core.linter.linted_dir:LintedDir", _records=TList(Record),
+                       _unfiltered_tmp_prs_errors_map=TDict(Text, INT))
+_is_lint_fn = _z3.Function("is_lint_error", _z3.IntSort(), _z3.BoolSort())
+
+
+def _isinstance_hook(ex, st, v, cls):
+    from sqlfluff.core.errors import SQLLintError
+    if cls is SQLLintError:
+        return ex.apply_spec(st, is_lint, [v], {}).z
+    raise _X.Unsupported(f"isinstance(violation, {cls.__name__})")
+
+
+_X.ISINSTANCE_HOOK["SQLBaseError"] = _isinstance_hook
+
+
+@spec(uninterpreted=True)
+def is_lint(v: SQLBaseError) -> BOOL:
+    """dynamic class of a violation is SQLLintError"""
+    from sqlfluff.core.errors import SQLLintError
+    return isinstance(v, SQLLintError)
+
+
+@spec
+def dir_ok(d):
+    """LintedDir.add records an entry of the per-path map for every retained file and every record"""
+    return (d.num_unfixable_lint_errors >= 0 and d.num_unfiltered_tmp_prs_errors >= 0
+            and all(d.files[i].path in d._unfiltered_tmp_prs_errors_map for i in range(len(d.files)))
+            and all(d._records[i].filepath in d._unfiltered_tmp_prs_errors_map for i in range(len(d._records)))
+            and all(d._unfiltered_tmp_prs_errors_map[d.files[i].path] >= 0 for i in range(len(d.files)))
+            and all(d._unfiltered_tmp_prs_errors_map[d._records[i].filepath] >= 0 for i in range(len(d._records)))
+            # the total is the sum of the per-file counts: zero total <=> every per-file count zero
+            and implies(d.num_unfiltered_tmp_prs_errors == 0,
+                        all(d._unfiltered_tmp_prs_errors_map[d.files[i].path] == 0 for i in range(len(d.files)))))
+
+
+@spec
+def only_cleared(d, old):
+    """the only change ever made to a record's fixes is clearing them"""
+    return all(d._records[i].violations[j].fixes == was(old, d._records[i].violations[j]).fixes
+               or (d._records[i].violations[j].fixes is not None and len(d._records[i].violations[j].fixes) == 0)
+               for i in range(len(d._records)) for j in range(len(d._records[i].violations)))
+
+
+@spec
+def counted(d, old, i, j):
+    """record i / violation j is what the counter may count: a non-warning record that HAD fixes, in a file with a
+    template/parse error"""
+    return (d._unfiltered_tmp_prs_errors_map[d._records[i].filepath] > 0
+            and was(old, d._records[i].violations[j]).fixes is not None
+            and len(was(old, d._records[i].violations[j]).fixes) > 0
+            and not d._records[i].violations[j].warning)
+
+
+@contract("sqlfluff.core.linter.linted_dir:LintedDir.discard_fixes_for_lint_errors_in_files_with_tmp_or_prs_errors", PROP)
+class dir_discard:
+    types = {"self": LintedDir}
+    modifies = ["self.num_unfixable_lint_errors", "heap:ViolationRecord.fixes", "heap:SQLBaseError.fixes"]
+
+    def requires(self):
+        return dir_ok(self)
+
+    def ensures(self, old):
+        return (
+            # every lint violation of a retained file WITH a template/parse error (counted before suppression)
+            # has lost its fixes: nothing in such a file can be applied any more
+            all(implies(self._unfiltered_tmp_prs_errors_map[self.files[i].path] > 0,
+                        all(implies(is_lint(self.files[i].violations[j]), len(self.files[i].violations[j].fixes) == 0)
+                            for j in range(len(self.files[i].violations))))
+                for i in range(len(self.files)))
+            # the unfixable counter only grows ...
+            and self.num_unfixable_lint_errors >= old.self.num_unfixable_lint_errors
+            # ... and only because of a NON-WARNING record that had fixes, in a file with a template/parse error
+            # (C22: warnings never cause a non-zero exit)
+            and implies(self.num_unfixable_lint_errors > old.self.num_unfixable_lint_errors,
+                        any(counted(self, old, i, j) for i in range(len(self._records))
+                            for j in range(len(self._records[i].violations)))))
+
+    def inv_1(self, old, _i):          # records
+        return (self.num_unfixable_lint_errors >= old.self.num_unfixable_lint_errors and only_cleared(self, old)
+                and implies(self.num_unfixable_lint_errors > old.self.num_unfixable_lint_errors,
+                            any(counted(self, old, i, j) for i in range(0, _i)
+                                for j in range(len(self._records[i].violations)))))
+
+    def inv_2(self, old, _i1, _i, record):              # v_dicts of one record
+        return (self.num_unfixable_lint_errors >= old.self.num_unfixable_lint_errors and only_cleared(self, old)
+                and 0 <= _i1 < len(self._records) and record is self._records[_i1]
+                and self._unfiltered_tmp_prs_errors_map[record.filepath] > 0
+                and implies(self.num_unfixable_lint_errors > old.self.num_unfixable_lint_errors,
+                            any(counted(self, old, i, j) for i in range(0, _i1)
+                                for j in range(len(self._records[i].violations)))
+                            or any(counted(self, old, _i1, j) for j in range(0, _i))))
+
+    def inv_3(self, old, _i):          # files
+        return (self.num_unfixable_lint_errors >= old.self.num_unfixable_lint_errors
+                and all(implies(self._unfiltered_tmp_prs_errors_map[self.files[i].path] > 0,
+                                all(implies(is_lint(self.files[i].violations[j]), len(self.files[i].violations[j].fixes) == 0)
+                                    for j in range(len(self.files[i].violations))))
+                        for i in range(0, _i)))
+
+    def inv_4(self, old, _i3, _i, linted_file):     # violations of one file
+        return (self.num_unfixable_lint_errors >= old.self.num_unfixable_lint_errors
+                and 0 <= _i3 < len(self.files) and linted_file is self.files[_i3]
+                and self._unfiltered_tmp_prs_errors_map[linted_file.path] > 0
+                and all(implies(self._unfiltered_tmp_prs_errors_map[self.files[i].path] > 0,
+                                all(implies(is_lint(self.files[i].violations[j]), len(self.files[i].violations[j].fixes) == 0)
+                                    for j in range(len(self.files[i].violations))))
+                        for i in range(0, _i3))
+                and all(implies(is_lint(linted_file.violations[j]), len(linted_file.violations[j].fixes) == 0)
+                        for j in range(0, _i)))
+
+
+MUTANTS += [
+    ("warnings_counted_again", "sqlfluff/core/linter/linted_dir.py", "                            if not v_dict.get(\"warning\"):\n                                self.num_unfixable_lint_errors += 1", "                            self.num_unfixable_lint_errors += 1"),
+    ("discard_skips_last_violation", "sqlfluff/core/linter/linted_dir.py", "                    for violation in linted_file.violations:\n                        if isinstance(violation, SQLLintError):", "                    for violation in linted_file.violations[:-1]:\n                        if isinstance(violation, SQLLintError):"),
+    ("discard_keyed_on_filtered_count", "sqlfluff/core/linter/linted_dir.py", "        if self.num_unfiltered_tmp_prs_errors:\n            # Filter serialised", "        if self.num_tmp_prs_errors:\n            # Filter serialised"),
+]
